@@ -13,6 +13,57 @@ import (
 func init() {
 	register("ring", genRing)
 	register("pool", genPool)
+	register("bfd", genBfd)
+}
+
+// group "bfd" (C16): how Session.Run computes the detection time that re-arms the detection
+// timer. The product DetectMult x interval must be formed in time.Duration (int64 ns), not in
+// layers.BFDTimeInterval (uint32 us), where it would wrap at 2^32 us.
+func genBfd(c *Ctx) error {
+	fd, err := c.Func("router/bfd", "Session", "Run")
+	if err != nil {
+		return err
+	}
+	var rhs ast.Expr
+	n := 0
+	ast.Inspect(fd.Body, func(nd ast.Node) bool {
+		if a, ok := nd.(*ast.AssignStmt); ok && len(a.Lhs) == 1 && len(a.Rhs) == 1 {
+			if id, ok := a.Lhs[0].(*ast.Ident); ok && id.Name == "detectionTime" {
+				rhs = a.Rhs[0]
+				n++
+			}
+		}
+		return true
+	})
+	if rhs == nil {
+		return fmt.Errorf("assignment to detectionTime not found in Session.Run")
+	}
+	inDuration := false
+	if b, ok := rhs.(*ast.BinaryExpr); ok && b.Op == token.MUL {
+		isDur := func(e ast.Expr) bool {
+			call, ok := e.(*ast.CallExpr)
+			return ok && c.Expr(call.Fun) == "time.Duration" && len(call.Args) == 1
+		}
+		isMaxOfDurations := func(e ast.Expr) bool {
+			call, ok := e.(*ast.CallExpr)
+			if !ok || c.Expr(call.Fun) != "max" || len(call.Args) != 2 {
+				return false
+			}
+			second, ok := call.Args[1].(*ast.CallExpr)
+			return ok && c.Expr(call.Args[0]) == "s.RequiredMinRxInterval" &&
+				c.Expr(second.Fun) == "bfdIntervalToDuration"
+		}
+		inDuration = (isDur(b.X) && isMaxOfDurations(b.Y)) || (isDur(b.Y) && isMaxOfDurations(b.X))
+	}
+	var sb strings.Builder
+	sb.WriteString("namespace Scion.Gen.Bfd\n")
+	fmt.Fprintf(&sb, "/-- right-hand side of `detectionTime := ...` in Session.Run -/\n")
+	fmt.Fprintf(&sb, "def detectionTimeExpr : String := %q\n", c.Expr(rhs))
+	fmt.Fprintf(&sb, "def detectionTimeAssignments : Nat := %d\n", n)
+	fmt.Fprintf(&sb, "/-- the product is `time.Duration(mult) * max(s.RequiredMinRxInterval, bfdIntervalToDuration(tx))`: formed in int64 nanoseconds -/\n")
+	fmt.Fprintf(&sb, "def detectionProductInDuration : Bool := %s\n", leanBool(inDuration))
+	sb.WriteString("end Scion.Gen.Bfd\n")
+	return c.Emit("Bfd.lean", sb.String())
 }
 
 func leanBool(b bool) string {
